@@ -95,5 +95,20 @@ CHECKS = {
         "with length level <= the rest of the recursive count for (rest, length - ngram + 1 transitions); the cut-off never leaves a partial level. Slice of save_omen_rules_to_disk: "
         "pcfg_omen_prob lists exactly the levels with non-zero keyspace, each with (passwords at level / N) / keyspace. Bounded: listed keyspace == number of distinct strings the real MarkovCracker emits.",
    note="_rec_calc_keyspace trusted (RecCount uninterpreted); dict.items() contract assumed; A-FP-INT (ints below 2**53 convert exactly) used for the non-zero divisor only"),
+ 'C03': dict(level='other', technique=TECH + "; the functions on the path from a training password to its guess re-verified against the contracts the composition uses; end-to-end as bounded stand-in",
+   text="Re-discharged here: parse keeps the tiling and tallies every segment under its label, base_structure_creation joins the labels, calculate_probabilities lists every counted item once "
+        "with count/total, the loader returns every written value and inserts C<n> after every A<n>, _recursive_guesses emits every combination with the mask applied, every pre-terminal has exactly "
+        "one adopting parent. The composition of these facts is argued in DESIGN.md, not machine-checked. Bounded: every supported training password is in the --skip_brute stream and the mass is 1.",
+   note="composition argument not an obligation; *_detection callee contracts discharged under C05; one-to-one case-mapping domain as in the statement"),
+ 'C13': dict(level='other', technique=TECH + " for the OMEN score; read-only frame of the scorer decided on the AST; score-vs-guesser as bounded stand-in",
+   text="OmenScorer.parse returns the level sum or -1 (all strings, all tables); PCFGPasswordScorer.parse, OmenScorer.parse and the multi-word detector functions they consult never update the scorer "
+        "(syntactic frame, all paths), so the score is a function of string and ruleset. Bounded: every non-zero score is matched by the real guesser emitting that string from a pre-terminal of that probability; "
+        "e-mail/website strings score 0. Known finding F15.",
+   note="PCFGPasswordScorer.parse has no functional contract (detectors + seven lookup loops): the promise itself rests on the stated bound"),
+ 'C20': dict(level='other', technique="frame obligation decided on the AST (contract-style 'assigns' clause for the file system); filter semantics by a bounded stand-in on the real CLI",
+   text="All paths: the only statements of edit_rules.py that change the file system are open(<rules_dir>/<rule>/Grammar/grammar.txt, 'w') and shutil.copytree(source, copy). "
+        "Bounded: grammar.txt after editing == original minus the structures failing the requested filters, survivors unchanged and in order, other files byte-identical, --copy leaves the source "
+        "untouched, guesses of the edited ruleset within the length bounds. Known finding F12 (context-sensitive segments counted as one character).",
+   note="re.findall/re.search/int() semantics are outside the verifiable subset; no function of edit_rules.py is under a functional contract"),
 }
 NOT_APPLICABLE = {}
